@@ -58,6 +58,14 @@ CLAIMED = {
              "sizeof, _Alignof and every member offset, and the static image of an object with exactly one bit-field set to all ones, must be byte-identical. "
              "The space of bit-field sequences of length 1 (and a seed-selected quarter of length 2; all of length <= 2 plus a reduced length-3 space in thorough) is enumerated.",
         note="clang 14 (and gcc 12 on the host) are the ABI oracle; where they disagree on x86_64 the case is discarded; aligned(n) attributes and bit-fields in packed structs are documented as unsupported and not generated."),
+    "C07": dict(
+        category="exploration", design_ref="DESIGN.md 3/C07",
+        engine="hypothesis",
+        technique="differential property-based testing: generated (type, initialiser) pairs; emitted data images and relocations compared byte-for-byte with clang --target objects; automatic objects executed through il2c and compared with gcc/clang runs",
+        text="Generated initialisers (designated, overriding, brace-elided, string, empty, incomplete arrays, address constants incl. string/compound literals) for "
+             "nested struct/union/array types with bit-fields: the static image cproc emits (every byte incl. padding, size, alignment, relocation targets and addends) "
+             "must equal clang's object on three targets; the same initialiser on an automatic object must yield the leaf values the reference compilers print.",
+        note="clang 14 is the image oracle (gcc -pedantic-errors filters invalid generated code); anonymous relocation targets are compared by content; automatic half excludes unions (unspecified padding bytes)."),
 }
 
 NOT_YET = "check not built yet in this round (planned per DESIGN.md section 10); no claim is made"
